@@ -5,6 +5,7 @@ from __future__ import absolute_import, division
 
 import re
 from collections import OrderedDict
+from decimal import Decimal
 
 from .CommonMixin import CommonMixin
 
@@ -133,6 +134,30 @@ PAT_PARAMETER_OR_STR = (
 #   2 - Parameter value if any
 #   3 - Non letter char
 REGEX_PARAMETER_OR_STR = re.compile(PAT_PARAMETER_OR_STR)
+
+
+def formatNumber(value):
+    """
+    Convert a number to a string suitable for use as a Gcode parameter value.
+
+    Gcode numbers have no exponent notation (Marlin would interpret the 'e' as the start of the
+    next parameter), so very small or very large values are written in plain decimal notation.
+
+    Parameters
+    ----------
+    value : float | int
+        The value to format
+
+    Returns
+    -------
+    string
+        The shortest decimal representation that converts back to the same value.
+    """
+    text = str(value)
+    if ("e" in text) or ("E" in text):
+        text = format(Decimal(text), "f")
+
+    return text
 
 
 class GcodeParser(CommonMixin):  # pylint: disable=too-many-instance-attributes
@@ -514,7 +539,7 @@ class GcodeParser(CommonMixin):  # pylint: disable=too-many-instance-attributes
         if (paramsDict is not None):
             for key, val in paramsDict.items():
                 if (val is not None):
-                    key += str(val)
+                    key += formatNumber(val) if isinstance(val, float) else str(val)
 
                 if (key):
                     vals.append(key)
